@@ -156,6 +156,8 @@ type ScriptReader struct {
 	Total int
 	Cap   int
 	Calls int
+	// EOFWithData makes the last Read return its bytes together with io.EOF, as io.Reader allows.
+	EOFWithData bool
 }
 
 func (r *ScriptReader) Read(p []byte) (int, error) {
@@ -170,6 +172,9 @@ func (r *ScriptReader) Read(p []byte) (int, error) {
 	r.Pat.Fill(p[:n], r.Lo)
 	r.Lo += n
 	r.Total -= n
+	if r.Total == 0 && r.EOFWithData {
+		return n, io.EOF
+	}
 	return n, nil
 }
 
